@@ -436,7 +436,7 @@ fn mutate_plain(rng: &mut Rng, ctx: &mut Ctx, fam: &Fam, counter: &mut u64, allo
     let nv = ctx.tri.nv() as u64;
     *counter += 1;
     let r = rng.below(100);
-    if r < 50 || nv == 0 {
+    if (r < 50 || nv == 0) && !(nv > 0 && r < 20) {
         let p = fam.point(rng, ctx);
         ctx.op(ins_op(ctx, p, *counter));
     } else if r < 58 {
